@@ -833,7 +833,11 @@ func TestVerifC08Flv(t *testing.T) {
 			runOne(vL(vZ(2), vZ(0), vI(hv), vI(ha), vLs(tags), vI(term), vI(k.rnd.intn(4)), segs, vLs(set)), false)
 		}
 	}
-	// writes: a fault at every Write call index
+	// writes: a fault at every Write call index; the write sweeps keep a quarter of the entry's byte
+	// budget for themselves whatever the read sweeps have spent
+	if vC08Spent > vC08EntryCap(k)*3/4 {
+		vC08Spent = vC08EntryCap(k) * 3 / 4
+	}
 	nW := k.N(60, 1500)
 	for i := 0; i < nW; i++ {
 		hv, ha, tags, wl, nc := vC08GenTags(k.rnd, i%3 != 0)
